@@ -4,7 +4,12 @@ import json
 props=[json.loads(l) for l in open('/verif/properties.jsonl')]
 ENG="gosmt (verifx)"
 TECH="SSA-to-SMT bounded symbolic execution of the real code (cvc5/z3), native replay of solver models"
+TV="SSA-to-SMT symbolic execution of generated subject programs (z3) as behavioural oracle; the tool's real code runs natively on the same sources; distinguishing inputs replayed natively"
 checks={
+ "C02":("translation_validation","for every refactoring pair of the fixed catalogue the solver proves P and P' equivalent on all inputs within the unwinding bound (self-composition over go/ssa), then the real fingerprinter must give equal fingerprints under both literal policies; documented-abstracted literal replacements are checked against the default policy","catalogue of programs is enumerated (stated bound); loops cut at the unwinding limit by assumption; tool side native","4 C02"),
+ "C03":("translation_validation","for every catalogue pair whose fingerprints are equal (all literals kept, or default policy unless the pair differs only in documented-abstracted literals) the solver must prove the two functions equivalent; a satisfiable query yields a distinguishing input that is replayed natively on both functions","catalogue enumerated; inputs unconstrained within shape bounds (slices/strings <=3); loops cut at the unwinding limit by assumption","4 C03"),
+ "C04":("translation_validation","cli.ComputeDiff runs natively on old/new files built from the catalogue; for every function reported 'preserved' whose source was edited the solver must prove old and new equivalent (else a native distinguishing input is the violation); identical copies must be preserved with no added/removed operations","catalogue enumerated; default literal policy (documented-abstracted literal edits excluded); functions beyond the 5000-block guard not generated","4 C04"),
+ "C12":("translation_validation","loop.DetectLoops/AnalyzeSCEV run natively on the same ssa.Function the engine executes symbolically; at each header evaluation the solver checks IV == Start + k*Step (mod width) and at loop exit body-executions == TripCount(args) for all argument values reaching at most 10 (8-bit loops: 300) header evaluations","loop catalogue enumerated (all five comparisons, both exit-test polarities, limit on either side, steps, constant/parameter bounds, continue/break/return, nested, sibling); trip-count trees evaluated in 200-bit vectors","4 C12"),
  "C08":("model_checking","bounded symbolic execution of detection.ComputeTopologySimilarity, MatchCalls, MatchSignature (IEEE doubles in the SMT FloatingPoint theory) and of jsondb.ScanTopology/ScanTopologyExact, composed by assume-guarantee contracts; every alert is shown to have a real confidence in [threshold,1] with no required call missing, descending order, threshold monotonicity and exact-implies-full","small universes (<=2 call keys, <=2 required calls, <=3 signatures), counters in [-4,2^20]; MatchSignature's contract is what the back-end harness uses; Pebble back end's filter not yet covered here; solvers and go/ssa trusted","4 C08"),
  "C15":("model_checking","bounded symbolic execution of diff.GetHardenedEnv from go/ssa over every environment of <=2 (thorough 3) ASCII entries of <=13 (14) bytes; every path's assertions discharged by z3 (cvc5 cross-check in thorough)","ASCII-only case mapping; os.Environ stubbed; bounds on entry count/length; Go compiler, go/ssa and the SMT solvers trusted","4 C15"),
  "C19":("model_checking","bounded symbolic execution of topology.typeListSimilarity, MapSimilarity and TopologySimilarity (doubles in the FloatingPoint theory; symmetry decided with float arithmetic abstracted to uninterpreted functions, integers exact): range [0,1], bit-exact symmetry, exactly 1.0 on field-wise equal topologies","counters <= 2^20, lists <= 2, 2-key maps; TopologySimilarity composed with the two helpers' proven contracts; that a renamed copy has an equal topology is a premise; the matcher clauses (one-to-one, threshold) are covered by the C09 harness","4 C19"),
@@ -17,14 +22,14 @@ m={
  "hooks":{"guard":"verif_harness","enable":"harness files and the engine are injected with go build/test -overlay and -tags verif_harness; nothing is written under /repo","baseline_off_cmd":"cd /repo && GOFLAGS=-mod=mod GOPROXY=off go test -vet=off -count=1 -timeout 25m ./...","source_commits":[],"add_only":True},
  "engines":[{"name":ENG,"path":"/verif/engine","serves_properties":sorted(checks),"kind_free_text":"go/ssa -> SMT-LIB2 symbolic executor (bit-vectors, IEEE doubles, bounded byte strings) driving z3/cvc5; counterexamples replayed natively"}],
  "checks":[],
- "notes":"Two genuine C20 defects were repaired in /repo (fix: commits 17035bd, 5259946); see known_findings.json and DESIGN.md section 5.",
+ "notes":"Genuine defects repaired in /repo by fix: commits (C20 x2, C12/C02 exit polarity, C02 self references); genuine defects not repaired are listed in known_findings.json (C03, C04, C12 wrap-around); see DESIGN.md section 5.",
  "not_applicable":[]
 }
 for pid in sorted(checks):
     cat,text,note,ref=checks[pid]
     m["checks"].append({"property_id":pid,"quick_cmd":f"./check {pid} quick","thorough_cmd":f"./check {pid} thorough","evidence_file":f"/verif/evidence/{pid}.json",
       "replay_cmd_template":f"./check {pid} --replay {{path}}","engine":ENG,
-      "level_claimed":{"category":cat,"text":text,"design_ref":"DESIGN.md section "+ref},"level_note":note,"technique":TECH})
+      "level_claimed":{"category":cat,"text":text,"design_ref":"DESIGN.md section "+ref},"level_note":note,"technique":(TV if cat=="translation_validation" else TECH)})
 for p in props:
     if p["id"] not in checks:
         m["not_applicable"].append({"property_id":p["id"],"reason":na_reason.get(p["id"],"check not built yet (work in progress)")})
